@@ -1384,7 +1384,8 @@ class TLSRecordLayer(object):
                      header.type == ContentType.change_cipher_spec):
                 # CCS doesn't change the status of undecryptable
                 # records
-                if header.type == ContentType.change_cipher_spec:
+                if header.type == ContentType.change_cipher_spec and \
+                        self._recordLayer.early_data_ok != early_data_ok:
                     self._recordLayer.early_data_ok = early_data_ok
                 yield (header, parser)
             # heartbeat message isn't made out of messages, too
